@@ -64,6 +64,7 @@ var toTargets = []struct {
 }
 
 func init() {
+	var d *fnDef
 	// bool.go
 	reg("not", "NotFunc", stdlib.NotFunc, 1)
 	reg("and", "AndFunc", stdlib.AndFunc, 1)
@@ -76,7 +77,7 @@ func init() {
 	reg("index", "IndexFunc", stdlib.IndexFunc, 2).hint = hintIndex
 	reg("length", "LengthFunc", stdlib.LengthFunc, 1)
 	reg("element", "ElementFunc", stdlib.ElementFunc, 3).hint = hintElement
-	reg("coalescelist", "CoalesceListFunc", stdlib.CoalesceListFunc, 3).bias = []string{"list", "tuple"}
+	reg("coalescelist", "CoalesceListFunc", stdlib.CoalesceListFunc, 3).hint = hintFamily([]string{"list", "tuple"}, "")
 	reg("compact", "CompactFunc", stdlib.CompactFunc, 1)
 	reg("contains", "ContainsFunc", stdlib.ContainsFunc, 3).hint = hintContains
 	reg("distinct", "DistinctFunc", stdlib.DistinctFunc, 2)
@@ -86,14 +87,15 @@ func init() {
 	reg("lookup", "LookupFunc", stdlib.LookupFunc, 4).hint = hintLookup
 	reg("merge", "MergeFunc", stdlib.MergeFunc, 5).hint = hintMerge
 	reg("reverselist", "ReverseListFunc", stdlib.ReverseListFunc, 2).bias = []string{"list", "set", "tuple"}
-	reg("setproduct", "SetProductFunc", stdlib.SetProductFunc, 5).bias = []string{"list", "set", "tuple"}
+	d = reg("setproduct", "SetProductFunc", stdlib.SetProductFunc, 5)
+	d.bias, d.hint = []string{"list", "set", "tuple"}, hintFamily([]string{"list", "set", "tuple"}, "")
 	reg("slice", "SliceFunc", stdlib.SliceFunc, 3).hint = hintSlice
 	reg("values", "ValuesFunc", stdlib.ValuesFunc, 2).bias = []string{"map", "object"}
 	reg("zipmap", "ZipmapFunc", stdlib.ZipmapFunc, 4).hint = hintZipmap
 	// conversion.go
 	reg("assertnotnull", "AssertNotNullFunc", stdlib.AssertNotNullFunc, 1)
 	for _, t := range toTargets {
-		reg(t.name, "", stdlib.MakeToFunc(t.ty), 1)
+		reg(t.name, "", stdlib.MakeToFunc(t.ty), 1).hint = hintTo(t.ty)
 	}
 	// csv.go
 	reg("csvdecode", "CSVDecodeFunc", stdlib.CSVDecodeFunc, 2).hint = hintCSV
@@ -101,14 +103,14 @@ func init() {
 	reg("formatdate", "FormatDateFunc", stdlib.FormatDateFunc, 3).hint = hintFormatDate
 	reg("timeadd", "TimeAddFunc", stdlib.TimeAddFunc, 2).hint = hintTimeAdd
 	// format.go
-	d := reg("format", "FormatFunc", stdlib.FormatFunc, 6)
+	d = reg("format", "FormatFunc", stdlib.FormatFunc, 6)
 	d.hint, d.fmtPos = hintFormat, 0
 	d = reg("formatlist", "FormatListFunc", stdlib.FormatListFunc, 5)
 	d.hint, d.fmtPos = hintFormat, 0
 	// general.go
-	reg("equal", "EqualFunc", stdlib.EqualFunc, 2).hint = hintSameType
-	reg("notequal", "NotEqualFunc", stdlib.NotEqualFunc, 2).hint = hintSameType
-	reg("coalesce", "CoalesceFunc", stdlib.CoalesceFunc, 4).hint = hintCoalesce
+	reg("equal", "EqualFunc", stdlib.EqualFunc, 2).hint = hintFamily(nil, "")
+	reg("notequal", "NotEqualFunc", stdlib.NotEqualFunc, 2).hint = hintFamily(nil, "")
+	reg("coalesce", "CoalesceFunc", stdlib.CoalesceFunc, 4).hint = hintFamily(nil, "")
 	// json.go
 	reg("jsonencode", "JSONEncodeFunc", stdlib.JSONEncodeFunc, 2)
 	reg("jsondecode", "JSONDecodeFunc", stdlib.JSONDecodeFunc, 3).hint = hintJSON
@@ -137,14 +139,15 @@ func init() {
 	reg("regex", "RegexFunc", stdlib.RegexFunc, 3).hint = hintRegex(0)
 	reg("regexall", "RegexAllFunc", stdlib.RegexAllFunc, 3).hint = hintRegex(0)
 	// sequence.go
-	reg("concat", "ConcatFunc", stdlib.ConcatFunc, 4).bias = []string{"list", "tuple"}
+	d = reg("concat", "ConcatFunc", stdlib.ConcatFunc, 4)
+	d.bias, d.hint = []string{"list", "tuple"}, hintFamily([]string{"list", "list", "tuple"}, "")
 	reg("range", "RangeFunc", stdlib.RangeFunc, 3)
 	// set.go
 	reg("sethaselement", "SetHasElementFunc", stdlib.SetHasElementFunc, 2).hint = hintContains
-	reg("setunion", "SetUnionFunc", stdlib.SetUnionFunc, 3)
-	reg("setintersection", "SetIntersectionFunc", stdlib.SetIntersectionFunc, 3)
-	reg("setsubtract", "SetSubtractFunc", stdlib.SetSubtractFunc, 3)
-	reg("setsymmetricdifference", "SetSymmetricDifferenceFunc", stdlib.SetSymmetricDifferenceFunc, 3)
+	reg("setunion", "SetUnionFunc", stdlib.SetUnionFunc, 3).hint = hintFamily(nil, "set")
+	reg("setintersection", "SetIntersectionFunc", stdlib.SetIntersectionFunc, 3).hint = hintFamily(nil, "set")
+	reg("setsubtract", "SetSubtractFunc", stdlib.SetSubtractFunc, 3).hint = hintFamily(nil, "set")
+	reg("setsymmetricdifference", "SetSymmetricDifferenceFunc", stdlib.SetSymmetricDifferenceFunc, 3).hint = hintFamily(nil, "set")
 	// string.go
 	reg("upper", "UpperFunc", stdlib.UpperFunc, 1)
 	reg("lower", "LowerFunc", stdlib.LowerFunc, 1)
